@@ -35,7 +35,7 @@ type c09MultiCase struct {
 	Msgs   []mvote
 }
 
-func c09MultiProp(c c09MultiCase) common.Result {
+func c09MultiProp(c c09MultiCase) (verdict common.Result) {
 	cfg := Config{N: c.N, Rules: "chainedhotstuff", Crypto: c.Crypto, Batch: 1, Leaders: []int{2, 3, 2, 3, 2, 3, 2, 3}, AsyncVotes: c.Async}
 	base := 0
 	if c.Async {
@@ -46,6 +46,7 @@ func c09MultiProp(c c09MultiCase) common.Result {
 		return common.Fail("harness", "cluster: %v", err)
 	}
 	defer cl.Close()
+	defer func() { verdict = cl.Verdict("C09", verdict) }()
 	sub := cl.Stacks[0]
 	q := cl.Quorum()
 	g := hotstuff.GetGenesis()
